@@ -121,6 +121,8 @@ func (c Const) WithWidth(w Width) Const {
 	return NewConst(c.Bytes(), w)
 }
 
+// nonzeroUpperIdx returns index of the most significant nonzero byte of b or -1
+// if there is no such byte.
 func nonzeroUpperIdx(b []byte) int {
 	for i := len(b) - 1; i >= 0; i-- {
 		if b[i] != 0 {
@@ -128,7 +130,7 @@ func nonzeroUpperIdx(b []byte) int {
 		}
 	}
 
-	return 0
+	return -1
 }
 
 // ConstUint converts Const into an arbitrary uint type. The boolean return
@@ -142,8 +144,8 @@ func ConstUint[T constraints.Unsigned](c Const) (T, bool) {
 	var val T
 
 	idx := nonzeroUpperIdx(c.Bytes())
-	if size := unsafe.Sizeof(val); uintptr(idx) >= size {
-		idx, fits = int(size-1), false
+	if size := int(unsafe.Sizeof(val)); idx >= size {
+		idx, fits = size-1, false
 	}
 
 	for i := idx; i >= 0; i-- {
